@@ -24,10 +24,17 @@ def units(tier):
                      "unknown_setting"):
             out.append(("script", SIDECARS, H, "invalid_setter", f"{fam}.invalid:{case}", PROPS, tier,
                         {"family": fam, "case": case}))
-    return C15.scenario_units(tier) + out
+    # a retry of a read must re-send that read (obligations tagged C18 in the send_request segments of the transport)
+    from . import C04
+    sends = [u for u in C04.protocol_units(tier) if "send_request" in u[4]]
+    return C15.scenario_units(tier) + out + sends
 
 
-replay = replay_c15
+def replay(vc, unit):
+    if "Protocol" in vc["name"].split("/")[0]:
+        return replay_protocol(vc, unit)
+    return replay_c15(vc, unit)
+
 INFO = {
     "trusted_base": [TB["T1"], TB["T2"], TB["T3"]],
     "assumptions": ["requests are classified by an independent decoder of the request bytes handed to Inverter._read_from_socket / ProtocolCommand.execute (function code 3 / AA55 control byte 0x01 = read)",
